@@ -252,6 +252,14 @@ def make_image_file(d, img, kind):
             ids[s] = ident
         dfsrun.write(d, 'img%d.hfe' % img, flux.hfe_from_surfaces(surfs, 2, 10, 'FM', 1))
         return 'img%d.hfe' % img, n, ids
+    if kind in ('hfe2b0', 'hfe2b1'):
+        # two-sided flux image, one side formatted but never written (no catalogue): it still is a surface of the image
+        blank_side = int(kind[-1])
+        x, ident = id_surface(img, 1 - blank_side, 2, 10, total=20)
+        surfs = [x, x]
+        surfs[blank_side] = b'\xE5' * (20 * 256)
+        dfsrun.write(d, 'img%d.hfe' % img, flux.hfe_from_surfaces(surfs, 2, 10, 'FM', 1))
+        return 'img%d.hfe' % img, 2, {1 - blank_side: ident}
     if kind == 'mfm':
         x, ident = id_surface(img, 0, 2, 18, total=36)
         dfsrun.write(d, 'img%d.mfm' % img, flux.hxcmfm_from_surfaces([x], 2, 18))
@@ -279,6 +287,7 @@ def w_address(case):
         argv = []
         hist = []
         idents = {}
+        blank = set()
         cur = 'P'
         for img, (kind, pol) in enumerate(seq):
             fn, n, ids = make_image_file(d, img, kind)
@@ -289,6 +298,9 @@ def w_address(case):
             hist.append((n, pol))
             for s, ident in ids.items():
                 idents[(img, s)] = ident
+            for s in range(n):
+                if s not in ids:
+                    blank.add((img, s))
         model = ref_alloc(hist)[-1]
         maxd = max(model)
         sig = 'C16:address'
@@ -296,7 +308,7 @@ def w_address(case):
         # --show-config + show-titles
         r = dfsrun.dfs('plain', argv + ['--show-config', 'show-titles'], d, timeout=120)
         res['n'] += 1
-        if r.status() != 'exit0':
+        if r.status() != 'exit0' and not (blank and r.exit == 1 and not r.sig):
             res['viol'].append((sig + ':show-titles-failed', '%s: %s %r' % (note, r.status(), r.err[-200:])))
         else:
             cfg = {}
@@ -315,7 +327,7 @@ def w_address(case):
             else:
                 bump(res, 'show-config-ok')
             titles = dict(render.parse_show_titles(r.out))
-            want = {str(k).encode(): b'I%dS%d' % v for k, v in model.items()}
+            want = {str(k).encode(): b'I%dS%d' % v for k, v in model.items() if v not in blank}
             if titles != want:
                 diff = sorted(k for k in set(titles) | set(want) if titles.get(k) != want.get(k))[:4]
                 res['viol'].append((sig + ':show-titles-differs-from-model', '%s: %s' % (note, [(k, titles.get(k), want.get(k)) for k in diff])))
@@ -326,7 +338,15 @@ def w_address(case):
             for cmd in (['type', '--binary', ':%d.$.ID' % k], ['--drive', str(k), 'type', '--binary', 'ID'], ['cat', str(k)]):
                 r = dfsrun.dfs('plain', argv + cmd if cmd[0] != '--drive' else argv + cmd, d, timeout=120)
                 res['n'] += 1
-                if k in model:
+                if k in model and model[k] in blank:
+                    if r.status() == 'exit0' or r.out:
+                        res['viol'].append((sig + ':unformatted-surface-readable', '%s: %r (drive %d is the blank side of image %d) gave %s %r' % (
+                            note, cmd, k, model[k][0], r.status(), r.out[:40])))
+                    elif not r.err.strip() or r.sig:
+                        res['viol'].append((sig + ':empty-drive-no-diagnostic', '%r' % cmd))
+                    else:
+                        bump(res, 'blank-surface-reported')
+                elif k in model:
                     if cmd[0] == 'cat':
                         okk = r.status() == 'exit0' and (b'I%dS%d' % model[k]) in r.out.split(b'\n')[0]
                     else:
@@ -400,7 +420,7 @@ def fam_tlc(tier):
 
 
 def fam_address(tier):
-    """real image files (ssd, dsd, two-sided ssd, 1-/2-sided hfe, mfm, mmb) attached in every order/policy up to 3 (quick: 2 + selected 3) images: every drive number addressed"""
+    """real image files (ssd, dsd, two-sided ssd, 1-/2-sided hfe, 2-sided hfe with a blank side, mfm, mmb) attached in every order/policy up to 3 (quick: 2 + selected 3) images: every drive number addressed"""
     kinds = ['ssd', 'dsd', 'hfe2', 'ssd2', 'hfe1', 'mfm']
     alph = [(k, p) for k in kinds for p in 'PF']
     for a in alph:
@@ -414,6 +434,17 @@ def fam_address(tier):
         trip = trip[::3]
     for t in trip:
         yield {'w': 'address', 'seq': [list(x) for x in t]}
+    # two-sided flux images with one unwritten side: alone, before and after every other kind, both policies
+    for bk in ('hfe2b0', 'hfe2b1'):
+        for p in 'PF':
+            yield {'w': 'address', 'seq': [[bk, p]]}
+            for (k2, p2) in alph + [('hfe2b0', 'P'), ('hfe2b1', 'F')]:
+                yield {'w': 'address', 'seq': [[bk, p], [k2, p2]]}
+                yield {'w': 'address', 'seq': [[k2, p2], [bk, p]]}
+            if tier == 'thorough':
+                for (k2, p2) in main:
+                    for (k3, p3) in main:
+                        yield {'w': 'address', 'seq': [[k2, p2], [bk, p], [k3, p3]]}
     for seq in ([('mmb', 'P')], [('ssd', 'P'), ('mmb', 'P')], [('mmb', 'F'), ('dsd', 'P')], [('ssd', 'F'), ('ssd', 'F'), ('mmb', 'P'), ('ssd', 'P')]):
         yield {'w': 'address', 'seq': [list(x) for x in seq]}
 
